@@ -9,8 +9,24 @@ _spec = importlib.util.spec_from_file_location("translate_dfa", os.path.join(_ro
 _dfa = importlib.util.module_from_spec(_spec)
 _spec.loader.exec_module(_dfa)
 
+_spec2 = importlib.util.spec_from_file_location("translate_c15prod", os.path.join(_root, "translate", "c15prod.py"))
+_c15prod = importlib.util.module_from_spec(_spec2)
+_spec2.loader.exec_module(_c15prod)
+
+_spec_rc = importlib.util.spec_from_file_location("tools_releasecheck", os.path.join(_root, "tools", "releasecheck.py"))
+_rc = importlib.util.module_from_spec(_spec_rc)
+_spec_rc.loader.exec_module(_rc)
+
+
+def _release(ctx):
+    """thorough tier: the same cases through a --release build of the harness, identical observations required"""
+    return _rc.release_crosscheck(ctx, ['c03', 'c15'], PROP['n_thorough'])
+
+
 PROP = {'gen': [],
- 'pre_coq': [_dfa.pre_coq],
+ 'extra': [_release],
+ 'pre_coq': [_dfa.pre_coq, _c15prod.pre_coq],
+ 'harness_mods': ['c15'],
  'coq_props': ['theories/Props/C03.vo'],
  'coq_corr': ['theories/Corr/C03Corr.vo'],
  'props_file': 'theories/Props/C03.v',
@@ -21,7 +37,9 @@ PROP = {'gen': [],
                'in any partition into reads (empty reads allowed) yields the same events and the same final state as one read; the '
                'events are the leftmost-longest tokenisation (spec munch) and spans plus pending bytes reassemble the stream; the '
                'loops terminate within a stated fuel bound. Instantiated at the production automata regenerated from the source each '
-               'run. Model tied to the code by a differential run at two levels; for generated pattern sets every emitted token is also checked '
+               'run, and composed with C15_production_* (each dumped DFA is the subset construction of the NFA built from the registered '
+               'patterns): C03_prod_language states the tokenisation on the production NFAs (accepted / live / tags of the NFA). '
+               'Model tied to the code by a differential run at two levels; for generated pattern sets every emitted token is also checked '
                'against the languages of the patterns (verified regex matcher of C15).',
  'level_note': 'Trusted: Coq kernel + vm_compute; hand-written model of MatcherDecoder::{decode, decode_byte, take_candidate} and '
                'Decoder::decode_into validated by the correspondence run; DFA dump hook + translate/dfa.py; readers expose all their '
@@ -37,6 +55,8 @@ PROP = {'gen': [],
                   'hand-written model Automata/Tokenizer.v of MatcherDecoder (decode, decode_byte, take_candidate) and decode_into, tied '
                   'to the code by the correspondence run',
                   'verif-hooks dump of the compiled automata (verif::dump_dfa, Tokenizer::dump) and translate/dfa.py (Gen/ProdDFA.v)',
+                  'for C03_prod_language: verif::dump_nfa, harness tool c15prod (DOT parser), translate/c15prod.py (Gen/ProdNFA.v) and the '
+                  'certificate checker of C15 (Automata/ProdCheck.v, verified)',
                   HARNESS],
  'assumptions': ['the BufRead handed to decode exposes all bytes of the read in one fill_buf (Cursor, &[u8]) as at every call site in '
                  'the crate; a reader exposing less is a finer partition into reads',
